@@ -19,7 +19,7 @@ import traceback
 
 from hypothesis import strategies as st
 
-from vlib.core import Outcome, Sub
+from vlib.core import Outcome, Sub, classify_exception
 
 PROPERTY = "C19"
 
@@ -33,7 +33,12 @@ RULE = ("case: k in {2,3} classes labelled 0..k-1 with 15..40 samples each (Gaus
         "points and original samples incl. the extreme ones) / partly outside (clear, near-threshold and - for __call__ - "
         "tolerance-band points) / entirely outside / pre-scaled like the tutorial does (copy.scale_range((0.005,0.995)); "
         "split_pieces), with 0..100% unlabelled (-1) samples, print_removed / print_output / print_incorrect_points flags, "
-        "optionally built from a bare ndarray; optionally the first operation's data is evaluated again at the end. "
+        "optionally built from a bare ndarray; before every operation (and before the final repetition) 0..2 *observer* operations: "
+        "take get_testing_data()/get_learning_data()/get_omitted_data()/get_original_data() (copies), get_calculated_classes_testset() "
+        "(copy), the DataSet passed to / returned by the previous call, and mutate the returned object (revert_scaling, "
+        "scale_factor(scalar/vector, no override), scale_range((0,1), no override), shift_value, shuffle, remove_samples, in-place "
+        "numpy writes); the range/scale-factor getters are only read; the first operation's data is evaluated again at the end "
+        "(always when an observer ran). "
         "All oracle clauses are evaluated after learning and after every operation. Non-trivial = some operation with >=1 "
         "removed and >=1 kept sample is executed after an earlier successful test_data call. Distinct = distinct case dict.")
 
@@ -62,6 +67,12 @@ ASSUMPTIONS = [
     "'density at the position in the learning scaling' would be meaningless although the arg-max predicate still held",
     "evaluate() after a test_data call has to summarise the built-in testing part followed by all tested labelled survivors "
     "(get_testing_data() must stay aligned with get_calculated_classes_testset())",
+    "observer operations must not influence the classifier: after each one the range/scale-factor getters, the calculated classes, "
+    "the testing data and the omitted data are unchanged, and every later clause is still predicted from the ORIGINAL "
+    "learning-time scaling (harness keeps its own copies). Returned arrays are written in place only where a copy is handed out "
+    "(DataSet.copy() via get_*_data(), get_calculated_classes_testset() -> .copy()); get_dataset_range()/get_scale_factor() return "
+    "the internal objects and are only read. An exception raised by the DataSet method applied to the copy is counted "
+    "('obs-raised:*'), not reported (DataSet semantics are C18)",
     "library calls run with the global numpy/random RNG seeded from case['rng'] (DataSet.shuffle uses sklearn.utils.shuffle)",
 ]
 
@@ -306,6 +317,91 @@ def multiset_mismatch(np, A, la, B, lb):
 
 
 # ----------------------------------------------------------------------------------------------------------------
+# observer operations: things a user may do with objects the classifier handed out; none may influence the classifier
+# ----------------------------------------------------------------------------------------------------------------
+OBS_TARGETS = ["testing", "testing", "learning", "learning", "omitted", "original", "classes", "getters", "prev_input",
+               "prev_result"]
+OBS_ACTIONS = ["revert", "revert", "scale_factor", "scale_factor", "scale_range", "shift", "shuffle", "remove", "inplace"]
+
+
+def apply_observer(np, out, cl, ob, d, prev):
+    """Take an object from a getter (documented / implemented as a copy) or an object the user owns (the DataSet passed to
+    / returned by the previous call) and mutate it.  Exceptions raised by the DataSet methods themselves are C18's
+    business and only counted."""
+    target, action = ob["target"], ob["action"]
+    if target == "classes":
+        a = cl.get_calculated_classes_testset()          # returns self._calculated_classes_testset.copy()
+        if isinstance(a, np.ndarray) and a.size:
+            a[...] = 99
+        out.cls("obs-target:classes", "obs-action:inplace")
+        return
+    if target == "getters":
+        lo, hi = cl.get_dataset_range()                  # no copy documented: read only
+        _ = (np.asarray(hi) - np.asarray(lo)) * np.asarray(cl.get_scale_factor()) * ob["f"]
+        out.cls("obs-target:getters", "obs-action:read")
+        return
+    g = None
+    if target in ("prev_input", "prev_result"):
+        g = prev.get(target)
+    elif target == "testing":
+        g = cl.get_testing_data()
+    elif target == "omitted":
+        g = cl.get_omitted_data()
+    elif target == "original":
+        g = cl.get_original_data()
+    if g is None or g.is_empty():
+        target, g = "learning", cl.get_learning_data()
+    n = g.get_length()
+    f = float(ob["f"])
+    if action == "revert" and not g.is_scaled():
+        action = "scale_factor"
+    out.cls("obs-target:" + target, "obs-action:" + action)
+    try:
+        with contextlib.redirect_stdout(io.StringIO()):
+            if action == "revert":
+                g.revert_scaling()
+            elif action == "scale_factor":
+                g.scale_factor(f * np.arange(1, d + 1) if ob["vec"] else f, override_scaling=False)
+            elif action == "scale_range":
+                g.scale_range((0.0, 1.0), override_scaling=False)
+            elif action == "shift":
+                g.shift_value(f * np.arange(1, d + 1) if ob["vec"] else f, override_scaling=False)
+            elif action == "shuffle":
+                g.shuffle()
+            elif action == "remove":
+                g.remove_samples(sorted(set([0, n - 1])))
+            else:
+                g[0][...] = g[0] * 3.0 + 1.0
+                g[1][...] = 0
+    except Exception as e:  # noqa - only library exceptions of the DataSet method are tolerated
+        if classify_exception(e)[0] != "lib":
+            raise
+        out.cls("obs-raised:" + action)
+
+
+def check_after_observer(np, out, sub, cl, ob, g_lo, g_hi, g_sf, calc_model, test_pos, test_lab, n_omit, d):
+    tag = "observer %s/%s" % (ob["target"], ob["action"])
+    a_lo, a_hi = cl.get_dataset_range()
+    if not (np.array_equal(np.asarray(a_lo), g_lo) and np.array_equal(np.asarray(a_hi), g_hi)
+            and np.array_equal(np.asarray(cl.get_scale_factor()), g_sf)):
+        out.bad(sub + "/observer/learning-time-scaling-changed",
+                "%s: range %s %s / factor %s -> range %s %s / factor %s" % (tag, g_lo.tolist(), g_hi.tolist(), g_sf.tolist(),
+                np.asarray(a_lo).tolist(), np.asarray(a_hi).tolist(), np.asarray(cl.get_scale_factor()).tolist()))
+    if not np.array_equal(np.asarray(cl.get_calculated_classes_testset()), calc_model):
+        out.bad(sub + "/observer/calculated-classes-changed", tag)
+    T = cl.get_testing_data()
+    nT = T.get_length() if not T.is_empty() else 0
+    if nT == len(calc_model) and nT == len(test_lab):     # (aligned bookkeeping; otherwise already reported elsewhere)
+        tp = np.asarray(T[0], dtype=float).reshape(-1, d)
+        if not (np.all(np.abs(tp - test_pos) <= TOL_POS) and [int(v) for v in T[1]] == test_lab):
+            out.bad(sub + "/observer/testing-data-changed", tag)
+    O = cl.get_omitted_data()
+    if (O.get_length() if not O.is_empty() else 0) != n_omit:
+        out.bad(sub + "/observer/omitted-data-changed", tag)
+    return not [s_ for s_, _ in out.violations if "/observer/" in s_]
+
+
+# ----------------------------------------------------------------------------------------------------------------
 # the check
 # ----------------------------------------------------------------------------------------------------------------
 def learn(np, deml, case, X, y, data_range):
@@ -421,8 +517,24 @@ def run(case):
     nontrivial = False
     first = None          # (scaled positions, classes) of operation 0 for the repetition at the end
     max_removed = max_kept = 0
+    prev = {}             # the DataSet handed to / returned by the previous evaluate/test call (user owned objects)
+    n_obs = 0
+
+    def observers(lst):
+        for ob in lst:
+            apply_observer(np, out, cl, ob, d, prev)
+            if not check_after_observer(np, out, sub, cl, ob, g_lo, g_hi, g_sf, np.asarray(cl_calc[0]), test_pos, test_lab,
+                                        n_omit, d):
+                return False
+        return True
+    cl_calc = [calc.copy()]
     for i, op in enumerate(case["ops"]):
         sig = sub
+        if op.get("obs"):
+            n_obs += len(op["obs"])
+            out.cls("observer-before-evaluation")
+            if not observers(op["obs"]):
+                return out
         tag = "op %d %s/%s" % (i, op["kind"], op["zone"])
         zone = op["zone"]
         if zone == "prescaled" and user_range:
@@ -621,11 +733,17 @@ def run(case):
         max_removed, max_kept = max(max_removed, n_removed), max(max_kept, n_kept)
         if i == 0:
             first = (kept_pos.copy(), list(kept_cls), P, zone)
+        prev = dict(prev_input=ds, prev_result=res if op["kind"] == "call" else None)
+        cl_calc[0] = np.asarray(cl.get_calculated_classes_testset()).copy()
         if [s_ for s_, _ in out.violations if "/bookkeeping/" not in s_ and "/print-incorrect-points-IndexError/" not in s_]:
             return out
 
     # ---- the data of the first operation again: same classes -----------------------------------------------------
-    if case.get("repeat") and first is not None and len(first[0]) and first[3] != "prescaled":
+    if case.get("obs_end"):
+        n_obs += len(case["obs_end"])
+        if not observers(case["obs_end"]):
+            return out
+    if (case.get("repeat") or n_obs) and first is not None and len(first[0]) and first[3] != "prescaled":
         kept_pos, kept_cls, P, _ = first
         ds = deml.DataSet(P.copy(), name="again")
         with contextlib.redirect_stdout(io.StringIO()):
@@ -646,7 +764,7 @@ def run(case):
         out.cls("repeated-first-op")
 
     out.nontrivial = nontrivial
-    out.info = dict(max_ops=len(case["ops"]), max_removed=max_removed, max_kept=max_kept,
+    out.info = dict(max_ops=len(case["ops"]), max_observers=n_obs, max_removed=max_removed, max_kept=max_kept,
                     max_samples=int(len(y)), max_testset=int(len(cl.get_calculated_classes_testset())))
     return out
 
@@ -681,6 +799,11 @@ def _strategy(mode):
                 case.update(lmin=1, lmax=draw(st.sampled_from([2, 2, 3])), max_eval=draw(st.sampled_from([20, 40, 60])))
             nops = draw(st.sampled_from([1, 2, 2, 3, 3]))
             ops = []
+
+            def observer_list(choices):
+                return [dict(target=draw(st.sampled_from(OBS_TARGETS)), action=draw(st.sampled_from(OBS_ACTIONS)),
+                             f=draw(st.sampled_from([0.5, 2.0, 3.0, -1.5, 10.0])), vec=draw(st.booleans()))
+                        for _ in range(draw(st.sampled_from(choices)))]
             for i in range(nops):
                 kind = draw(st.sampled_from(["test", "test", "call"] if i == 0 else ["test", "call", "call"]))
                 zone = draw(st.sampled_from(["inside", "partly", "partly", "partly", "outside", "prescaled"]))
@@ -688,8 +811,10 @@ def _strategy(mode):
                                 unl=draw(st.sampled_from([0.0, 0.25, 0.5, 1.0] if kind == "call" else [0.0, 0.25, 0.5])),
                                 print_removed=draw(st.booleans()), print_output=draw(st.booleans()),
                                 print_incorrect=draw(st.booleans()),
-                                raw=draw(st.sampled_from([False, False, False, True]))))
+                                raw=draw(st.sampled_from([False, False, False, True])),
+                                obs=observer_list([0, 0, 1, 1, 2] if i else [0, 0, 0, 1, 2])))
             case["ops"] = ops
+            case["obs_end"] = observer_list([0, 0, 1])
             case["repeat"] = draw(st.booleans())
             return case
         return s()
@@ -703,12 +828,17 @@ def _fixed(mode):
                     lmin=1, lmax=3 if mode == "std" else 2, max_eval=40, repeat=True,
                     ops=[dict(kind="test", zone="partly", n=10, unl=0.25, print_removed=True, print_output=True, print_incorrect=True,
                               raw=False),
-                         dict(kind="call", zone="partly", n=12, unl=0.5, print_removed=True, print_output=False, raw=False),
+                         dict(kind="call", zone="partly", n=12, unl=0.5, print_removed=True, print_output=False, raw=False,
+                              obs=[dict(target="testing", action="revert", f=2.0, vec=False),
+                                   dict(target="classes", action="inplace", f=2.0, vec=False)]),
                          dict(kind="test", zone="outside", n=4, unl=0.0, print_removed=False, print_output=False, raw=False)])
         other = dict(base, rng=777, k=2, n=[15, 40], layout="lattice", split=1.0, even=False, shuffle=False, range_mode="wider",
                      ovo=True, orig_unl=0,
                      ops=[dict(kind="test", zone="inside", n=8, unl=0.5, print_removed=True, print_output=False, raw=False),
-                          dict(kind="call", zone="partly", n=9, unl=1.0, print_removed=False, print_output=False, raw=True)])
+                          dict(kind="call", zone="partly", n=9, unl=1.0, print_removed=False, print_output=False, raw=True,
+                               obs=[dict(target="learning", action="scale_factor", f=3.0, vec=True),
+                                    dict(target="prev_input", action="inplace", f=2.0, vec=False)])],
+                     obs_end=[dict(target="learning", action="scale_range", f=2.0, vec=False)])
         return [base, other]
     return f
 
@@ -780,6 +910,22 @@ def selftest():
     assert not o.violations, o.violations
     check_classes(np, o, "t", combis[::-1], Tst[0], calc, "selftest")
     assert o.violations, "reversed classifier list accepted"
+    # 9. observer operations: harmless on a sound DataSet; with a DataSet whose non-overriding scale_factor updates the
+    #    (shared) factor array in place the classifier's learning-time scaling moves and the oracle must notice
+    orig_sf = deml.DataSet.scale_factor
+
+    def inplace_sf(self, scaling_factor, override_scaling=False):
+        shared = self._scaling_factor if (self._scaled and not override_scaling) else None
+        orig_sf(self, scaling_factor, override_scaling)
+        if isinstance(shared, np.ndarray):
+            shared *= scaling_factor
+            self._scaling_factor = shared
+    try:
+        deml.DataSet.scale_factor = inplace_sf
+        o = run(case)
+    finally:
+        deml.DataSet.scale_factor = orig_sf
+    assert any("/observer/learning-time-scaling-changed" in s for s, _ in o.violations), o.violations
 
 
 SUBS = [
